@@ -270,7 +270,10 @@ class Reuse(Sub):
     def strategy(self, tier):
         base = spec_strategy()
         step = st.fixed_dictionaries({'gamma': base.map(lambda s: s['gamma']), 'u': base.map(lambda s: s['u']), 'sigma': base.map(lambda s: s['sigma']),
-                                      'keep_u': st.booleans(), 'shorter': st.sampled_from([0, 0, 0, 1, 3])})
+                                      'keep_u': st.booleans(), 'shorter': st.sampled_from([0, 0, 0, 1, 3]),
+                                      # how the potential reaches the re-used object: a new array assigned to the attribute, the attribute
+                                      # left alone when the potential does not change (only sigma / gamma do), or the stored array overwritten in place
+                                      'how': st.sampled_from(['assign', 'assign', 'leave', 'inplace'])})
         return st.fixed_dictionaries({'closure': st.sampled_from(sorted(CLASSES)), 'alias': st.booleans(), 'flag': st.booleans(),
                                       'grid': base.map(lambda s: s['grid']), 'steps': st.lists(step, min_size=2, max_size=5)})
 
@@ -294,7 +297,15 @@ class Reuse(Sub):
             sigma = sigma_of(stp, r)
             if prev_u is not None and len(prev_u) == n and not np.array_equal(prev_u, u):
                 changed_u_same_len = True
-            clo.potential = u.copy()
+            how = stp.get('how', 'assign')
+            cur = getattr(clo, 'potential', None)
+            if how == 'leave' and u is prev_u and isinstance(cur, np.ndarray) and cur.shape == u.shape:
+                out.label('potential-attribute-left-alone')
+            elif how == 'inplace' and isinstance(cur, np.ndarray) and cur.shape == u.shape:
+                cur[...] = u
+                out.label('potential-overwritten-in-place')
+            else:
+                clo.potential = u.copy()
             clo.sigma = sigma
             fresh = make_closure(which, spec['alias'], flag)
             fresh.potential = u.copy()
